@@ -291,6 +291,7 @@ class Net:
         self.connect_log = []
         self.record_writes = False
         self.fixed_latency = None  # overrides the tape when set
+        self.accept_delay = None  # optional callable(port) -> extra one-way delay of connections to that port (a slower data path)
         self.fixed_segment = None
 
     # ---- choices
@@ -530,7 +531,7 @@ class SimLoop(base_events.BaseEventLoop):
             sp.connection_made(st)
             self.net.kick(ct)
 
-        self.call_later(self.net.latency(), accept)
+        self.call_later(self.net.latency() + (self.net.accept_delay(port) if self.net.accept_delay else 0), accept)
         cp = protocol_factory()
         ct.set_protocol(cp)
         cp.connection_made(ct)
